@@ -39,6 +39,10 @@ type NodeSelect struct {
 	Binding     *BoundIdentifier
 	Select      pgsql.Select
 	Constraints pgsql.Expression
+
+	// AlreadyBound is true when the node pattern restates a variable that an earlier pattern bound, e.g. the
+	// second pattern part of MATCH (n), (n) or the second clause of MATCH (n) MATCH (n:Kind).
+	AlreadyBound bool
 }
 
 type ExpansionOptions struct {
